@@ -462,11 +462,27 @@ def run_rangegraph(n, choice, ctx):
     shared_evaluator_pass(key0, ['via:range'], inputs, adj, n, model, ctx)
 
 
-def chain_model(d, ending, back=None):
-    """cells C1 <- C2 <- ... <- Cd ; C1 is the entry, Cd holds the ending."""
+# how a cell of a chain refers to the next one (each adds 1)
+LINKS = {
+    'plus': '=C%d+1',
+    'nested': '=(C%d+1)*1',                 # the reference two levels down
+    'lazy-if': '=IF(TRUE,C%d+1,0)',         # in a lazily evaluated argument
+    'lazy-and': '=IF(AND(TRUE,C%d>-1E+9),C%d+1,0)',
+    'range': '=SUM(C%d:C%d)+1',
+}
+
+
+def chain_model(d, ending, back=None, link='plus', shared=False):
+    """cells C1 <- C2 <- ... <- Cd ; C1 is the entry, Cd holds the ending.
+    ``shared``: every tenth cell also adds 0 * the last cell (acyclic
+    sharing: the last cell is reached along many paths)."""
     cells = {}
     for i in range(1, d):
-        cells['Sheet1!C%d' % i] = '=C%d+1' % (i + 1)
+        n = LINKS[link].count('%d')
+        f = LINKS[link] % ((i + 1,) * n)
+        if shared and i % 10 == 0 and i + 1 < d:
+            f += '+0*$C$%d' % d
+        cells['Sheet1!C%d' % i] = f
     if ending == 'unknown-function':
         cells['Sheet1!C%d' % d] = '=NOSUCHFUNCTION(1)'
     elif ending == 'python-error':
@@ -478,16 +494,18 @@ def chain_model(d, ending, back=None):
     return cells
 
 
-def run_chain(ending, dmax, ctx):
+def run_chain(ending, dmax, ctx, link='plus'):
     """One ending over all depths (the bound for depth d uses depth 5)."""
     base_len = None
+    lk = '' if link == 'plus' else '-' + link
     for d in range(1, dmax + 1):
         backs = range(1, d + 1) if ending == 'back-edge' else [None]
         for back in backs:
-            cells = chain_model(d, ending, back)
-            key = 'C06/chain/%s/d=%d%s' % (
-                ending, d, '' if back is None else '/back=%d' % back)
-            inputs = {'kind': 'chain', 'ending': ending, 'd': d, 'back': back}
+            cells = chain_model(d, ending, back, link)
+            key = 'C06/chain%s/%s/d=%d%s' % (
+                lk, ending, d, '' if back is None else '/back=%d' % back)
+            inputs = {'kind': 'chain', 'ending': ending, 'd': d, 'back': back,
+                      'link': link}
             model = lib.compile_dict(cells)
             t0 = time.time()
             ev = lib.Evaluator(model)
@@ -506,19 +524,21 @@ def run_chain(ending, dmax, ctx):
                 else:
                     want2 = got
                 if want2 is not None:
-                    ctx.check('C06/chain/%s/d=%d%s/again=%s' % (
-                        ending, d, '' if back is None else '/back=%d' % back,
+                    ctx.check('C06/chain%s/%s/d=%d%s/again=%s' % (
+                        lk, ending, d,
+                        '' if back is None else '/back=%d' % back,
                         again.split('!')[1]), got2, want2,
-                        ['chain', 'ending:' + ending, 'evaluator:shared'],
+                        ['chain', 'ending:' + ending, 'evaluator:shared',
+                         'link:' + link],
                         {'kind': 'chain', 'ending': ending, 'd': d,
-                         'back': back})
+                         'back': back, 'link': link})
             lib.clear_caches()
             mlen = len(str(exc)) if exc is not None else 0
             if d == 5 and back in (None, 1):
                 base_len = max(mlen, 200)
             ctx.count('transitions')
             ctx.count('states')
-            tags = ['chain', 'ending:' + ending]
+            tags = ['chain', 'ending:' + ending, 'link:' + link]
             if ending == 'value':
                 ctx.check(key, got, lib.norm(7 + d - 1), tags, inputs)
                 continue
@@ -571,23 +591,29 @@ def _run_deep(ending, ctx):
     if ending == 'back-edge':
         # cycles longer than the interpreter's recursion capacity: still a
         # cycle, and it must be reported as one
-        for d in DEEP:
-            model = lib.compile_dict(chain_model(d, ending, 1))
-            try:
-                with lib.time_limit(30):
-                    got, _ = cycle_obs(lib.Evaluator(model).evaluate,
-                                       'Sheet1!C1')
-            except lib.CaseTimeout:
-                got = 'timeout'
-            lib.clear_caches()
-            ctx.count('transitions')
-            ctx.check('C06/deep/back-edge/d=%d' % d, got, 'cycle-report',
-                      ['chain', 'deep-cycle', 'entry:on-cycle'],
-                      {'kind': 'deep', 'ending': ending}, True)
+        for link in ('plus', 'nested', 'range', 'lazy-if'):
+            for d in DEEP:
+                model = lib.compile_dict(chain_model(d, ending, 1, link))
+                try:
+                    with lib.time_limit(30):
+                        got, _ = cycle_obs(lib.Evaluator(model).evaluate,
+                                           'Sheet1!C1')
+                except lib.CaseTimeout:
+                    got = 'timeout'
+                lib.clear_caches()
+                ctx.count('transitions')
+                ctx.check('C06/deep/back-edge%s/d=%d' % (
+                    '' if link == 'plus' else '-' + link, d), got,
+                    'cycle-report',
+                    ['chain', 'deep-cycle', 'entry:on-cycle', 'link:' + link],
+                    {'kind': 'deep', 'ending': ending}, True)
         return
-    for d in DEEP:
-        cells = chain_model(d, ending)
-        key = 'C06/deep/%s/d=%d' % (ending, d)
+    for d in DEEP + tuple(-x for x in DEEP):
+        # (negative: the same depth with acyclic sharing of the last cell)
+        shared = d < 0
+        d = abs(d)
+        cells = chain_model(d, ending, shared=shared)
+        key = 'C06/deep/%s%s/d=%d' % (ending, '-shared' if shared else '', d)
         inputs = {'kind': 'deep', 'ending': ending}
         model = lib.compile_dict(cells)
         try:
@@ -642,6 +668,10 @@ def plan(tier):
     for ending in ('unknown-function', 'python-error', 'back-edge', 'value'):
         shards.append({'kind': 'chain', 'ending': ending,
                        'dmax': CHAIN_D[tier], 'weight': 50})
+    for link in ('lazy-if', 'lazy-and', 'nested'):
+        for ending in ('unknown-function', 'python-error'):
+            shards.append({'kind': 'chain', 'ending': ending, 'link': link,
+                           'dmax': min(CHAIN_D[tier], 40), 'weight': 30})
     first, rest = mixed_options()
     for i0 in range(len(first)):
         for c1 in range(len(rest)):
@@ -727,7 +757,8 @@ def _run_shard(shard, ctx):
         for choice in allc[shard['lo']:shard['hi']]:
             run_rangegraph(n, choice, ctx)
     else:
-        run_chain(shard['ending'], shard['dmax'], ctx)
+        run_chain(shard['ending'], shard['dmax'], ctx,
+                  shard.get('link', 'plus'))
         ctx.sample({'chain': shard['ending'],
                     'cells_d3': chain_model(3, shard['ending'], 1)})
 
@@ -761,7 +792,8 @@ def _replay(inputs, ctx):
         run_rangegraph(inputs['n'], tuple(inputs['choice']), ctx)
     else:
         # the quadratic bound is relative to depth 5: replay the whole family
-        run_chain(inputs['ending'], max(inputs['d'], 5), ctx)
+        run_chain(inputs['ending'], max(inputs['d'], 5), ctx,
+                  inputs.get('link', 'plus'))
 
 
 def selftest():
